@@ -229,6 +229,17 @@ add("FX-33", "9bd5138", "C19", "op.replica_differs", "EXEC:FMMetrics",
     "the 'Features in constraints' listing of the metrics report was built from a set: its order "
     "(and the report) changed with PYTHONHASHSEED", _p)
 
+_gl = json.dumps({"name": "w", "features": {
+    "r": {"name": "Root", "type": "GROUP", "optional": False},
+    "a": {"name": "A", "type": "FEATURE", "optional": False},
+    "b": {"name": "B", "type": "FEATURE", "optional": True}},
+    "tree": {"id": "r", "children": [{"id": "a"}, {"id": "b"}]}, "constraints": {}})
+add("FX-34", "4892658", "C02", "wf.child_multiplicity", "GlencoeReader.transform",
+    "a Glencoe document whose group feature has a type the reader does not know (neither FEATURE, "
+    "XOR, OR nor GENOR) was accepted, and the relation of the last mandatory child was added to "
+    "its parent a second time: the returned model was not a tree",
+    put_plan("glencoe", _gl, {"kind": "any"}, "C02"))
+
 
 def main():
     os.makedirs(os.path.join(orch.VERIF, "known"), exist_ok=True)
